@@ -21,7 +21,9 @@ fn len_idx(r: &mut Rng) -> u32 {
     } else if x < 980 {
         let small: Vec<u32> = (N_DENSE as u32..LENS.len() as u32).filter(|&i| LENS[i as usize] < 64).collect();
         r.pick(&small)
-    } else if x < 996 {
+    } else if x < 996 || cfg!(miri) {
+        // (under Miri the recording allocator's table is small and an interpreted 4096-element run takes minutes:
+        // the Miri lane stays at or below 1024)
         let big: Vec<u32> = (N_DENSE as u32..LENS.len() as u32).filter(|&i| LENS[i as usize] >= 64 && LENS[i as usize] <= 1024).collect();
         r.pick(&big)
     } else {
